@@ -1,6 +1,6 @@
 #!/usr/bin/env python3
-"""tools/seed_finalize.py [PID-i ...]: for each seeded change, (re)run the property's quick check against it
-(tools/seed_check.sh applies the patch to /repo, runs ./check, reverts) and write seeded/<PID>-<i>/meta.json."""
+"""tools/seed_finalize.py [PID-i ...]: (re)writes seeded/<PID>-<i>/meta.json from the directory's contents and the
+record of the first encounter below; `current_check` is kept from the previous meta.json (tools/seed_recheck.py measures it)."""
 import glob
 import json
 import os
@@ -34,6 +34,29 @@ FIRST = {
     "C19-2": ("missed", "no header cell had a removable character next to a space at the cell edge. Added such cells to the header pool."),
     "C20-1": ("missed", "the replay workload replayed once. Made it a history: runs, replay, more runs, the same reference replayed again."),
     "C20-2": ("missed", "G was only run with collecting methods. All seven run forms now."),
+    # ---- round 2 (the first round's sites and mechanisms were excluded in the prompt)
+    "C04-3": ("caught", ""),
+    "C04-4": ("missed", "fail_all() was never generated and no run followed another on one instance in C04. Added a prelude run of another group using a cross-path signal on the same instance."),
+    "C05-3": ("missed", "the oracle was silent under validation-mode: match. Added clause match_mode_ignored for the error kinds where the unchanged library honours 'match' (all but an exception inside a match-position function)."),
+    "C05-4": ("missed", "no erroring subtree contained an empty-string term. Added the empty_term decoration of the provokers."),
+    "C07-3": ("caught", ""),
+    "C07-4": ("caught", ""),
+    "C08-3": ("caught", ""),
+    "C08-4": ("caught", ""),
+    "C09-3": ("missed", "cross-path signals were excluded from every generator. C09 now generates fail_all/stop_all/skip_all/advance_all (its oracle only compares memory with disk); the member-directory clause is relaxed for members a stop_all() kept from starting."),
+    "C09-4": ("caught", ""),
+    "C10-3": ("missed", "no run was left unfinished in C10 histories. Added unfinished generator runs before a run on a reused instance (modelled as runs that own a directory and a second)."),
+    "C10-4": ("missed", "the oracle was silent when the most recent run kept no data. Now the reference may fail but must not resolve into another run's directory."),
+    "C11-3": ("caught", ""),
+    "C11-4": ("caught", ""),
+    "C12-3": ("caught", ""),
+    "C12-4": ("missed", "identities never looked like positions. Added all-digit identities placed at other positions, mixed with unidentified members."),
+    "C18-3": ("caught", ""),
+    "C18-4": ("caught (history replay)", "the shared default list makes the violation depend on earlier scenarios in the same process: reported through a history replay file"),
+    "C19-3": ("missed", "no job had a source-mode: preceding member (every result data file is called data.csv). Added chain jobs."),
+    "C19-4": ("missed", "no data made Python emit a warning. Added cells with unknown time zones and date()/regex components that warn, so the process-wide warnings filter becomes observable."),
+    "C20-3": ("missed", "a results reference was never the file of a chain with a preceding member. Added the replay_chain workload."),
+    "C20-4": ("missed", "the reader always scanned a file with the same column layout as the referenced group's. Added a permuted layout."),
 }
 
 
@@ -42,10 +65,22 @@ def main():
     for sid in want:
         pid, i = sid.split("-")
         d = os.path.join(VERIF, "seeded", sid)
-        r = subprocess.run([os.path.join(VERIF, "tools", "seed_check.sh"), pid, i], capture_output=True, text=True, cwd=VERIF)
-        out = r.stdout
-        m = re.search(r"SEED \S+ check exit=(\d+) demo_without=(\d+) demo_with=(\d+)", out)
-        clauses = sorted({re.sub(r"^[^-]+-\d+-", "", os.path.basename(x))[:-5] for x in re.findall(r"replay=(\S+)", out)})
+        def _last(fn):
+            try:
+                with open(os.path.join(d, fn), encoding="utf-8") as f:
+                    t = f.read().strip().splitlines()
+                return t[-1][:300] if t else ""
+            except OSError:
+                return None
+
+        old = {}
+        try:
+            with open(os.path.join(d, "meta.json"), encoding="utf-8") as f:
+                old = json.load(f)
+        except (OSError, ValueError):
+            pass
+        m = None
+        clauses = (old.get("current_check") or {}).get("violation_clauses", [])
         notes = ""
         try:
             with open(os.path.join(d, "notes.md"), encoding="utf-8") as f:
@@ -54,9 +89,11 @@ def main():
             pass
         needs = ""
         for line in notes.splitlines():
-            if re.search(r"needed to manifest|Trigger|trigger|What is needed", line):
-                needs = line.strip("- ").strip()
+            if re.search(r"[Nn]eeded to manifest|[Tt]rigger|What is needed|[Nn]eeds? to manifest|Does not trigger|to manifest", line):
+                needs = re.sub(r"^[\s\-\*]+", "", line).strip()[:600]
                 break
+        if not needs and notes.strip():
+            needs = notes.strip().splitlines()[0].strip("# ")[:300]
         tests = ""
         try:
             with open(os.path.join(d, "tests.txt"), encoding="utf-8") as f:
@@ -66,12 +103,14 @@ def main():
         meta = {
             "id": sid,
             "property_broken": pid,
-            "author": "independent sub-agent given only the property text and its own scratch worktree (/tmp/seed-%s)" % pid,
+            "author": "independent sub-agent given only the property text and its own scratch worktree (/tmp/seed-%s or /tmp/seed2-%s; recreate with `git -C /repo worktree add --detach <dir> HEAD` to run demo.py)" % (pid, pid),
+            "round": 1 if int(i) <= 2 else 2,
             "needs_to_manifest": needs,
             "files": {"patch": "patch.diff", "demonstration": "demo.py", "author_notes": "notes.md"},
             "confirmed_by_me": {
-                "demo_exit_without_change": int(m.group(2)) if m else None,
-                "demo_exit_with_change": int(m.group(3)) if m else None,
+                "demo_without_change_last_line": _last("demo_without.log"),
+                "demo_with_change_last_line": _last("demo_with.log"),
+                "demo_exit": "0 without the change, non-zero with it (printed by tools/seed_check.sh when the change was first run)",
                 "pinned_suite_with_change": tests,
                 "how": "tools/seed_check.sh (demo in the scratch worktree with and without the change) and tools/seed_tests.sh (whole pinned suite with the change, passed set compared with BASELINE.json stable_pass)",
             },
@@ -79,7 +118,7 @@ def main():
             "strengthening": FIRST.get(sid, ("", ""))[1],
             "current_check": {
                 "command": f"git -C /repo apply seeded/{sid}/patch.diff && ./check {pid} --tier quick ; git -C /repo checkout -- .",
-                "exit": int(m.group(1)) if m else None,
+                "exit": (old.get("current_check") or {}).get("exit"),
                 "violation_clauses": clauses,
             },
         }
